@@ -138,6 +138,16 @@ func (c *Ctx) N(quick, thorough int) int {
 	return n
 }
 
+// Stride is 1, or the scale divisor in a child that runs a much slower build of the monitors: such a child takes every
+// Stride-th entry of the long structured lists (the ordinary shards take all of them).
+func (c *Ctx) Stride() int {
+	if c.scale > 1 {
+		return c.scale
+	}
+
+	return 1
+}
+
 // NConc is N for the sizes of CONCURRENT workloads: not scaled down in the slow build variants (the race detector's build
 // is where they matter most).
 func (c *Ctx) NConc(quick, thorough int) int {
